@@ -58,12 +58,14 @@ import (
 	ethtypes "github.com/teleport-network/teleport/x/xibc/clients/light-clients/eth/types"
 	tmtypes "github.com/teleport-network/teleport/x/xibc/clients/light-clients/tendermint/types"
 	tsstypes "github.com/teleport-network/teleport/x/xibc/clients/tss-client/types"
+	xibc "github.com/teleport-network/teleport/x/xibc"
 	xibcclient "github.com/teleport-network/teleport/x/xibc/core/client"
 	clienttypes "github.com/teleport-network/teleport/x/xibc/core/client/types"
 	commitmenttypes "github.com/teleport-network/teleport/x/xibc/core/commitment/types"
 	"github.com/teleport-network/teleport/x/xibc/core/host"
 	"github.com/teleport-network/teleport/x/xibc/exported"
 	xibctesting "github.com/teleport-network/teleport/x/xibc/testing"
+	xibctypes "github.com/teleport-network/teleport/x/xibc/types"
 )
 
 const (
@@ -96,6 +98,9 @@ type c18World struct {
 	// not detect; the oracle's "valid header" is relative to a genuine trusted state)
 	consistent map[string]bool
 	bscG       *c18BscChain // generated chain with rotating validator sets (c18_bsc_test.go)
+	bscBig     *c18BscChain // … at the top of the uint64 height range (2^64-16 …)
+	bscMaxE    *c18BscChain // … one header at height 2^64-1 with epoch 2^64-1
+	bscChains  map[uint64]*c18BscChain
 	tmR        *c18TmrChain // synthetic Tendermint chain whose validator set changes with every block (c18_tm_test.go)
 	// per installed TSS client: the TSS address it must have BY CONSTRUCTION (the proposal's, then the one of every
 	// accepted key-rotation header) — independent of what the store says
@@ -148,6 +153,9 @@ func newC18World(t *testing.T) *c18World {
 	c18ReadJSON(t, filepath.Join(dir, "x/xibc/clients/light-clients/eth/types/testdata/update_headers.json"), &w.ethHdr)
 
 	w.bscG = newC18BscChain()
+	w.bscBig = newC18BscChainAt(7141, 10, 18446744073709551600, 6)
+	w.bscMaxE = newC18BscChainAt(7142, 18446744073709551615, 18446744073709551615, 1)
+	w.bscChains = map[uint64]*c18BscChain{c18BscChainID: w.bscG, 7141: w.bscBig, 7142: w.bscMaxE}
 	w.tmR = newC18TmrChain(w.coord.CurrentTime.Add(-10 * time.Minute).Truncate(time.Second))
 	w.addr["r0"] = w.chainA.SenderAcc.String()
 	w.addr["r1"] = sdk.AccAddress(sha256.New().Sum([]byte("r1"))[:20]).String()
@@ -449,6 +457,20 @@ func (w *c18World) realiseCS(desc string) exported.ClientState {
 			xibctesting.MaxClockDrift, hd.GetHeight().(clienttypes.Height), commitmenttypes.GetSDKSpecs(), xibctesting.Prefix, 0)
 	case "bscr0", "bscr1", "bscr2":
 		return w.bscG.state(20 + 10*uint64(desc[4]-'0'))
+	case "bscq0", "bscq1", "bscq2": // the same chain under revision number 7
+		return w.bscG.stateRev(20+10*uint64(desc[4]-'0'), 7)
+	case "bscbig": // heights at the top of the uint64 range
+		return w.bscBig.state(w.bscBig.first)
+	case "bscmaxe": // epoch 2^64-1, header at height 2^64-1
+		return w.bscMaxE.state(w.bscMaxE.first)
+	case "ethq0", "ethq1": // ETH headers under revision number 5
+		h := w.ethHdr[5*int(desc[4]-'0')].ToHeader()
+		h.Height.RevisionNumber = 5
+		return w.ethState(h, 4)
+	case "tmbig": // a Tendermint client at revision height 2^63 of revision 2^64-1 (no header can follow)
+		c := tmtypes.NewClientState("c18big-18446744073709551615", tmtypes.DefaultTrustLevel, xibctesting.TrustingPeriod, xibctesting.UnbondingPeriod,
+			xibctesting.MaxClockDrift, clienttypes.NewHeight(18446744073709551615, 9223372036854775808), commitmenttypes.GetSDKSpecs(), xibctesting.Prefix, 0)
+		return c
 	case "bscr!stale": // the announced list of the installed header was tampered with after sealing: seal no longer matches
 		st := w.bscG.state(20)
 		h := st.Header
@@ -622,6 +644,17 @@ func (w *c18World) realiseKS(desc string) exported.ConsensusState {
 		return w.tmR.hdr[c18TmrFirst+3*int64(desc[3]-'0')].ConsensusState()
 	case "bscr0", "bscr1", "bscr2":
 		return w.bscG.cons(20 + 10*uint64(desc[4]-'0'))
+	case "bscq0", "bscq1", "bscq2":
+		return w.bscG.consRev(20+10*uint64(desc[4]-'0'), 7)
+	case "bscbig":
+		return w.bscBig.cons(w.bscBig.first)
+	case "bscmaxe":
+		return w.bscMaxE.cons(w.bscMaxE.first)
+	case "ethq0", "ethq1":
+		h := w.ethHdr[5*int(desc[4]-'0')]
+		return &ethtypes.ConsensusState{Timestamp: h.Time, Height: clienttypes.NewHeight(5, h.Number.Uint64()), Root: h.Root[:]}
+	case "tmbig":
+		return w.tmR.hdr[c18TmrFirst].ConsensusState()
 	case "bsc0", "bsc1":
 		h := w.bscHeader(int(desc[3] - '0'))
 		return &bsctypes.ConsensusState{Timestamp: h.Time, Height: clienttypes.NewHeight(0, h.Number.Uint64()), Root: h.Root[:]}
@@ -660,8 +693,14 @@ func (w *c18World) baseTime(base string) time.Time {
 		return w.now
 	case "tmr0", "tmr1":
 		return w.tmR.hdr[c18TmrFirst+3*int64(base[3]-'0')].GetTime()
-	case "bscr0", "bscr1", "bscr2":
+	case "bscr0", "bscr1", "bscr2", "bscq0", "bscq1", "bscq2":
 		return time.Unix(int64(w.bscG.hdr[20+10*uint64(base[4]-'0')].Time), 0)
+	case "bscbig", "bscmaxe":
+		return time.Unix(c18BscT0, 0)
+	case "ethq0", "ethq1":
+		return time.Unix(int64(w.ethHdr[5*int(base[4]-'0')].Time), 0)
+	case "tmbig":
+		return w.tmR.hdr[c18TmrFirst].GetTime()
 	case "bsc0":
 		return time.Unix(int64(w.bscGen.Time), 0)
 	case "bsc1":
@@ -796,6 +835,15 @@ func (w *c18World) apply(r *Rec, op string) (string, string) {
 		w.now = w.baseTime(f[1]).Add(time.Duration(off) * time.Second)
 		w.ctx = w.ctx.WithBlockTime(w.now)
 		return fmt.Sprintf("time %d", w.now.UnixNano()), "ok"
+	case "timens": // relative, in nanoseconds (1 ns around a deadline)
+		off, _ := strconv.ParseInt(f[1], 10, 64)
+		w.now = w.now.Add(time.Duration(off))
+		w.ctx = w.ctx.WithBlockTime(w.now)
+		return fmt.Sprintf("time %d", w.now.UnixNano()), "ok"
+	case "restart":
+		return w.restart(r)
+	case "dry":
+		return w.dry(r, f[1:])
 	case "create", "upgrade", "toggle":
 		return w.proposal(r, f)
 	case "relayer", "relayerx":
@@ -854,6 +902,110 @@ func (w *c18World) apply(r *Rec, op string) (string, string) {
 	return "", ""
 }
 
+// every client's Status(), sorted by name
+func (w *c18World) statuses() string {
+	ck := w.app.XIBCKeeper.ClientKeeper
+	var parts []string
+	for _, ic := range ck.GetAllGenesisClients(w.ctx) {
+		if cs, ok := ck.GetClientState(w.ctx, ic.ChainName); ok {
+			parts = append(parts, ic.ChainName+"="+string(cs.Status(w.ctx, ck.ClientStore(w.ctx, ic.ChainName), w.cdc)))
+		}
+	}
+	sort.Strings(parts)
+	return strings.Join(parts, ",")
+}
+
+// restart: the hosting chain is exported and re-imported — xibc ExportGenesis -> JSON through the app codec -> the
+// module's own Validate -> emptied xibc store -> InitGenesis. Nothing a client stores (state, consensus states,
+// auxiliary records), no relayer and no Status() may change.
+func (w *c18World) restart(r *Rec) (string, string) {
+	before, relBefore, statBefore := w.dump(w.ctx), w.dumpRelayers(w.ctx), w.statuses()
+	cctx, write := w.ctx.CacheContext()
+	var verr error
+	pan, msg := safely(func() {
+		gs := xibc.ExportGenesis(cctx, *w.app.XIBCKeeper)
+		cdc := w.app.AppCodec()
+		var gs2 xibctypes.GenesisState
+		cdc.MustUnmarshalJSON(cdc.MustMarshalJSON(gs), &gs2)
+		if verr = gs2.Validate(); verr != nil {
+			return
+		}
+		st := cctx.KVStore(w.app.GetKey(host.StoreKey))
+		var ks [][]byte
+		it := sdk.KVStorePrefixIterator(st, nil)
+		for ; it.Valid(); it.Next() {
+			ks = append(ks, append([]byte{}, it.Key()...))
+		}
+		it.Close()
+		for _, kk := range ks {
+			st.Delete(kk)
+		}
+		xibc.InitGenesis(cctx, *w.app.XIBCKeeper, false, &gs2)
+	})
+	if pan || verr != nil {
+		r.Count("restart.failed")
+		w.find(r, "C18:restart-export-not-importable", "the exported xibc genesis fails validation / InitGenesis: "+fmt.Sprintf("panic=%v %s err=%v", pan, msg, verr), fmt.Sprintf("panic=%v err=%v", pan, verr), "export -> validate -> import succeeds")
+		return "restart", "err D:" + before + " R:" + relBefore
+	}
+	write()
+	r.Count("restart")
+	after, relAfter, statAfter := w.dump(w.ctx), w.dumpRelayers(w.ctx), w.statuses()
+	if strings.Contains(before, "/pv=") || strings.Contains(before, "/sg:") {
+		r.Count("restart.with-bsc-aux")
+	}
+	if strings.Contains(before, "/ei:") {
+		r.Count("restart.with-eth-aux")
+	}
+	if strings.Contains(before, "/pt:") {
+		r.Count("restart.with-tm-aux")
+	}
+	if after != before || relAfter != relBefore {
+		w.find(r, "C18:restart-changed-client-store", "export + InitGenesis changed what the clients / the relayer registry store", after+" R:"+relAfter, before+" R:"+relBefore)
+	}
+	if statAfter != statBefore {
+		w.find(r, "C18:restart-changed-status", "export + InitGenesis changed a client's Status()", statAfter, statBefore)
+	}
+	return "restart", "ok D:" + after + " R:" + relAfter
+}
+
+// dry: the operation is executed on a context that is DROPPED (gov's dry run of the handler at submission, Simulate /
+// CheckTx, a failed multi-message tx); nothing may be kept, and the real execution later must be unaffected
+func (w *c18World) dry(r *Rec, inner []string) (string, string) {
+	before, relBefore, statBefore := w.dump(w.ctx), w.dumpRelayers(w.ctx), w.statuses()
+	saveCtx, saveHist, saveSnap := w.ctx, append([]string{}, w.hist...), w.tmSnap
+	saveTss, saveCons := map[string]string{}, map[string]bool{}
+	for k, v := range w.tssAddr {
+		saveTss[k] = v
+	}
+	for k, v := range w.consistent {
+		saveCons[k] = v
+	}
+	w.ctx, _ = w.ctx.CacheContext()
+	conc, out := w.apply(r, strings.Join(inner, " "))
+	w.ctx, w.hist, w.tmSnap, w.tssAddr, w.consistent = saveCtx, saveHist, saveSnap, saveTss, saveCons
+	r.Count("dry." + inner[0] + "." + strings.Fields(out)[0])
+	after, relAfter := w.dump(w.ctx), w.dumpRelayers(w.ctx)
+	if after != before || relAfter != relBefore {
+		w.find(r, "C18:dropped-execution-changed-state", "an execution on a dropped context changed the state", after, before)
+	}
+	if sa := w.statuses(); sa != statBefore { // through the keeper's own getters: a context-ignoring memo shows here
+		w.find(r, "C18:dropped-execution-changed-status", "an execution on a dropped context changed what the keeper reports for the clients", sa, statBefore)
+	}
+	return "dry " + conc, "dropped D:" + after + " R:" + relAfter
+}
+
+// entries of the dump that belong to other clients than `name`
+func c18Others(dump, name string) string {
+	pre := hxs(name) + "/"
+	var keep []string
+	for _, e := range strings.Split(dump, ",") {
+		if e != "-" && e != "" && !strings.HasPrefix(e, pre) {
+			keep = append(keep, e)
+		}
+	}
+	return strings.Join(keep, ",")
+}
+
 func c18b(b bool) int {
 	if b {
 		return 1
@@ -874,6 +1026,20 @@ func c18Name(s string) string {
 		return "bsc.main"
 	case "N2":
 		return "eth_1"
+	case "Nchars": // every character class IsValidID allows
+		return "a.B_c+9-e#f[g]h<i>J"
+	case "Nupper": // differs from N0 only by case
+		return "CHAIN-B"
+	case "Npfx": // N0 is a prefix of it
+		return "chain-b2"
+	case "Ndigits":
+		return "0123456789"
+	case "N63":
+		return strings.Repeat("z", 63)
+	case "Nuni": // not ASCII
+		return "cha\u00eene"
+	case "Ntab":
+		return "ab\tcd"
 	case "Nshort":
 		return "ab"
 	case "Nslash":
@@ -992,6 +1158,9 @@ func (w *c18World) proposal(r *Rec, f []string) (string, string) {
 			w.find(r, "C18:invalid-proposal-accepted:"+kind+":"+f[2]+"/"+f[3], fmt.Sprintf("a %s proposal with invalid content (client state %s, consensus state %s) passed both the submission check and the handler; the previous client (%s) was replaced / a client was installed", kind, f[2], f[3], oldTy), "ok", "rejected at submission or by the handler, nothing changed")
 		}
 	}
+	if c18Others(before, name) != c18Others(after, name) {
+		w.find(r, "C18:other-client-changed:"+kind, "a "+kind+" proposal about "+name+" changed the store of another client", c18Others(after, name), c18Others(before, name))
+	}
 	if res != "ok" {
 		if sa := statusOf(); sa != statusBefore {
 			w.find(r, "C18:failed-proposal-changed-status:"+kind, "a failed "+kind+" proposal changed the Status() of the existing client", sa, statusBefore)
@@ -1019,6 +1188,9 @@ func (w *c18World) proposal(r *Rec, f []string) (string, string) {
 		}
 	default:
 		r.Nontrivial(strings.Join(w.hist, ";"))
+		if f[2] == "tmbig" || f[2] == "bscbig" || f[2] == "bscmaxe" || strings.HasPrefix(f[2], "bscq") || strings.HasPrefix(f[2], "ethq") {
+			r.Count("boundary." + f[2] + "." + kind + ".ok")
+		}
 		w.consistent[name] = w.c18Consistent(cs, ks)
 		if !w.consistent[name] {
 			r.Count("installed.inconsistent-pair")
@@ -1114,8 +1286,8 @@ func (w *c18World) verify(r *Rec, f []string) (string, string) {
 	ptxt := "-"
 	switch ty {
 	case "tm":
-		if cs.(*tmtypes.ClientState).ChainId == c18TmrChainID {
-			return "noop", "skip" // the synthetic chain has no application state to prove against
+		if cs.(*tmtypes.ClientState).ChainId != w.chainB.ChainID {
+			return "noop", "skip" // only the live counterparty has application state to prove against
 		}
 		qh := h.RevisionHeight
 		if f[2] == "hi" {
@@ -1262,16 +1434,17 @@ func (w *c18World) update(r *Rec, f []string) (string, string) {
 			vbc = how == "next" && (!synthetic || tmRotation) && ht.GT(trusted) && hd.GetTime().Before(w.now.Add(xibctesting.MaxClockDrift)) /* light.Verify: header time must be strictly before now + drift */
 		case "bsc":
 			num := cs.GetLatestHeight().GetRevisionHeight()
-			if cs.(*bsctypes.ClientState).ChainId == c18BscChainID { // the generated chain with rotating validator sets
+			if gc, isGen := w.bscChains[cs.(*bsctypes.ClientState).ChainId]; isGen { // a generated chain with rotating validator sets
 				n := num + 1
 				if how == "stale" {
 					n = num
 				}
-				g, ok := w.bscG.hdr[n]
-				if !ok {
-					g = w.bscG.hdr[c18BscFirst]
+				g, ok := gc.hdr[n]
+				if !ok || n < num {
+					g, ok = gc.hdr[gc.first], false
 				}
 				hh := *g
+				hh.Height.RevisionNumber = cs.GetLatestHeight().GetRevisionNumber()
 				if how == "forged" { // sealed by a key that is not the coinbase
 					cb := append([]byte{}, hh.Coinbase...)
 					cb[1] ^= 0x01
@@ -1279,7 +1452,7 @@ func (w *c18World) update(r *Rec, f []string) (string, string) {
 				}
 				header = &hh
 				vbc = how == "next" && ok && n == num+1
-				if vbc && w.bscG.newcomer[n] {
+				if vbc && gc.newcomer[n] {
 					bscNewcomer = true
 				}
 				break
@@ -1309,6 +1482,7 @@ func (w *c18World) update(r *Rec, f []string) (string, string) {
 				idx = 0
 			}
 			hh := w.ethHdr[idx].ToHeader()
+			hh.Height.RevisionNumber = cs.GetLatestHeight().GetRevisionNumber()
 			if how == "forged" {
 				hh.Nonce ^= 1
 				if cs.(*ethtypes.ClientState).ChainId == 4 {
@@ -1420,6 +1594,15 @@ func (w *c18World) update(r *Rec, f []string) (string, string) {
 	}
 	after := w.dump(w.ctx)
 	r.Count("update." + ty + "." + how + "." + res)
+	if res == "ok" && ty != "tss" && strings.Count(c18Others(after, "\x00")+",", hxs(n)+"/c:") <= strings.Count(c18Others(before, "\x00")+",", hxs(n)+"/c:") {
+		r.Count("update." + ty + ".pruned-a-consensus-state.ok")
+	}
+	if res == "ok" && gh != nil && (ty == "bsc" || ty == "eth") && gh.GetRevisionNumber() != 0 {
+		r.Count("update." + ty + ".revision-nonzero.ok")
+	}
+	if res == "ok" && gh != nil && gh.GetRevisionHeight() >= 1<<63 {
+		r.Count("update." + ty + ".height-top-of-uint64.ok")
+	}
 	if bscNewcomer {
 		r.Count("update.bsc.sealed-by-newcomer." + res)
 	}
@@ -1431,6 +1614,9 @@ func (w *c18World) update(r *Rec, f []string) (string, string) {
 	}
 	if res == "ok" {
 		r.Nontrivial(strings.Join(w.hist, ";"))
+	}
+	if c18Others(before, n) != c18Others(after, n) {
+		w.find(r, "C18:other-client-changed:update", "an update of "+n+" changed the store of another client", c18Others(after, n), c18Others(before, n))
 	}
 	if res != "ok" && before != after {
 		w.find(r, "C18:failed-update-changed-store:"+ty, "a failed update changed the client store", after, before)
@@ -1516,8 +1702,10 @@ func c18CSOf(ty string, second bool) (string, string) {
 
 func c18TimeFor(cs string) string {
 	switch {
-	case cs == "tmr0" || cs == "tmr1":
+	case cs == "tmr0" || cs == "tmr1" || cs == "tmbig" || cs == "bscbig" || cs == "bscmaxe" || cs == "ethq0" || cs == "ethq1":
 		return cs
+	case strings.HasPrefix(cs, "bscq"):
+		return cs[:5]
 	case strings.HasPrefix(cs, "bscr1"), strings.HasPrefix(cs, "bscr2"), strings.HasPrefix(cs, "bscr0"):
 		return cs[:5]
 	case strings.HasPrefix(cs, "bscr"):
@@ -1536,8 +1724,23 @@ func c18TimeFor(cs string) string {
 
 // one full use cycle of the client called name, whose installed client state descriptor is cs
 func c18Use(name, cs string, who string) []string {
-	h := []string{"status " + name}
+	// (R) the chain is exported and re-imported right after the install, with the auxiliary records present
+	h := []string{"restart", "status " + name}
+	// past the trusting period of the INSTALLED consensus state while the latest one is still fresh: the next update
+	// prunes the installed state (its auxiliary records must be where the pruning looks for them) and must succeed
+	prune := func(off int64) []string {
+		return []string{fmt.Sprintf("time cons:%s %d", name, off), "status " + name, "update " + name + " " + who + " next", "status " + name,
+			fmt.Sprintf("time cons:%s 30", name)}
+	}
+	tmTrust := int64(xibctesting.TrustingPeriod / time.Second)
 	switch {
+	case cs == "tmbig" || cs == "bscmaxe": // no header can follow: installed, restarted, exported
+		h = append(h, "time "+cs+" 30", "status "+name, "update "+name+" "+who+" next", "status "+name)
+		return append(h, "restart", "status "+name)
+	case cs == "bscbig": // five headers up to 2^64-11, the switch at 2^64-15 included
+		h = append(h, "time bscbig 200", "update "+name+" "+who+" next", "restart", "update "+name+" "+who+" next", "update "+name+" "+who+" next",
+			"update "+name+" "+who+" next", "update "+name+" "+who+" next", "status "+name, "update "+name+" "+who+" next", "update "+name+" "+who+" stale")
+		return append(h, "restart", "status "+name)
 	case strings.HasPrefix(cs, "tss"):
 		other, ot := "tssB", "B"
 		me := cs[3:4]
@@ -1545,32 +1748,45 @@ func c18Use(name, cs string, who string) []string {
 			other, ot = "tssA", "A"
 		}
 		// key rotation through the msg server; afterwards the old address can neither prove nor update
-		h = append(h, "verify "+name+" latest", "update "+name+" "+cs+" tss:"+ot, "status "+name, "verify "+name+" latest",
-			"verify "+name+" addr:"+me, "verify "+name+" addr:"+ot, "update "+name+" "+cs+" tss:"+me, "update "+name+" "+other+" tss:"+me,
+		h = append(h, "verify "+name+" latest", "dry update "+name+" "+cs+" tss:"+ot, "update "+name+" "+cs+" tss:"+ot, "status "+name, "verify "+name+" latest",
+			"verify "+name+" addr:"+me, "verify "+name+" addr:"+ot, "restart", "update "+name+" "+cs+" tss:"+me, "update "+name+" "+other+" tss:"+me,
 			"verify "+name+" latest", "verify "+name+" addr:"+ot)
 	case strings.HasPrefix(cs, "tmr"):
 		// four updates, each signed by another validator set than the one before (NextValidatorsHash chain)
-		h = append(h, "time "+cs+" 60", "update "+name+" "+who+" next", "update "+name+" "+who+" next", "update "+name+" "+who+" next",
+		h = append(h, "time "+cs+" 60", "update "+name+" "+who+" next", "dry update "+name+" "+who+" next", "update "+name+" "+who+" next", "restart", "update "+name+" "+who+" next",
 			"update "+name+" "+who+" next", "status "+name, "update "+name+" "+who+" forged", "update "+name+" "+who+" stale")
+		h = append(h, prune(tmTrust-3)...)
 	case strings.HasPrefix(cs, "tm"):
-		// the time-delay boundary: 19 s after installation (tmd: too early), exactly 20 s (inclusive), then later
-		h = append(h, "verify "+name+" latest", "time now 19", "verify "+name+" latest", "time now 1", "verify "+name+" latest",
-			"time tm 30", "verify "+name+" latest", "update "+name+" "+who+" next", "status "+name, "verify "+name+" latest")
-	case strings.HasPrefix(cs, "bscr"):
+		// the time-delay boundary: 19 s after installation (tmd: too early), exactly 20 s (inclusive, and 1 ns around it)
+		h = append(h, "verify "+name+" latest", "time now 19", "verify "+name+" latest", "time now 1", "timens -1", "verify "+name+" latest", "timens 1", "verify "+name+" latest",
+			"time tm 30", "verify "+name+" latest", "dry update "+name+" "+who+" next", "update "+name+" "+who+" next", "status "+name, "restart", "verify "+name+" latest")
+		// the trusting period to the nanosecond: Expired from exactly timestamp + trusting period on
+		h = append(h, fmt.Sprintf("time cons:%s %d", name, tmTrust), "status "+name, "timens -1", "status "+name, "timens 2", "status "+name, fmt.Sprintf("time cons:%s 30", name))
+		h = append(h, prune(tmTrust-3)...)
+	case strings.HasPrefix(cs, "bscr"), strings.HasPrefix(cs, "bscq"):
 		// long enough to cross the validator-set switch (epoch + len/2) and to accept headers sealed by validators that
 		// joined with the set announced at the install epoch
 		h = append(h, "time "+c18TimeFor(cs)+" 200")
 		for i := 0; i < 7; i++ {
+			if i == 1 {
+				h = append(h, "dry update "+name+" "+who+" next", "restart") // between the epoch header and the switch point
+			}
+			if i == 3 {
+				h = append(h, "restart") // right after the switch
+			}
 			h = append(h, "update "+name+" "+who+" next")
 		}
 		h = append(h, "status "+name, "update "+name+" "+who+" forged", "update "+name+" "+who+" stale")
+		h = append(h, prune(999997)...)
 	case strings.HasPrefix(cs, "eth"):
-		h = append(h, "time "+c18TimeFor(cs)+" 200", "update "+name+" "+who+" next", "update "+name+" "+who+" next", "update "+name+" "+who+" next", "update "+name+" "+who+" next", "status "+name,
+		h = append(h, "time "+c18TimeFor(cs)+" 200", "update "+name+" "+who+" next", "dry update "+name+" "+who+" next", "update "+name+" "+who+" next", "restart", "update "+name+" "+who+" next", "status "+name,
 			"update "+name+" "+who+" forged", "update "+name+" "+who+" stale")
+		h = append(h, prune(999997)...)
 	default:
 		h = append(h, "time "+c18TimeFor(cs)+" 200", "update "+name+" "+who+" next", "update "+name+" "+who+" next", "status "+name)
+		h = append(h, prune(999997)...)
 	}
-	return h
+	return append(h, "restart", "status "+name)
 }
 
 // the exhaustive matrix: every ordered type pair for toggle, every type for upgrade and create, each followed by use
@@ -1692,6 +1908,105 @@ func c18InvalidMatrix() [][]string {
 	return out
 }
 
+// (S) several clients of every type side by side, under names that differ by case / are prefixes of one another / use
+// every allowed character class; a lifecycle op + use cycle on each in turn. The frame oracle (every other client's
+// store byte-identical after every proposal and update) and the restart oracle run throughout.
+func c18SideBySide() [][]string {
+	all := "N0 Nupper N1 Npfx N2 Nchars Nmin Nmax Ndigits N63"
+	pre := []string{"reset", "relayer r0 " + all, "relayer tssA " + all, "relayer tssB " + all,
+		"time tm 1", "create N0 tm tm", "create Nupper tmd tm", "time tmr0 1", "create N63 tmr0 tmr0",
+		"time bscr0 1", "create N1 bscr0 bscr0", "time bscr1 1", "create Npfx bscr1 bscr1", "time bsc0 1", "create Ndigits bsc0 bsc0",
+		"time eth0 1", "create N2 eth0 eth0", "time eth1 1", "create Nchars eth1 eth1",
+		"create Nmin tssA tss", "create Nmax tssB tss", "restart"}
+	type cl struct{ name, cs string }
+	cls := []cl{{"N0", "tm"}, {"Nupper", "tmd"}, {"N63", "tmr0"}, {"N1", "bscr0"}, {"Npfx", "bscr1"}, {"Ndigits", "bsc0"}, {"N2", "eth0"}, {"Nchars", "eth1"}, {"Nmin", "tssA"}, {"Nmax", "tssB"}}
+	var out [][]string
+	// A: every client is used in turn
+	h := append([]string{}, pre...)
+	for _, c := range cls {
+		who := "r0"
+		if strings.HasPrefix(c.cs, "tss") {
+			who = c.cs
+		}
+		h = append(h, "time "+c18TimeFor(c.cs)+" 1")
+		h = append(h, c18Use(c.name, c.cs, who)...)
+	}
+	out = append(out, h)
+	// B: upgrades and toggles of some, then everything is used
+	h = append([]string{}, pre...)
+	h = append(h, "time tm 1", "dry upgrade N0 tm tm", "upgrade N0 tm tm", "time bscr2 1", "upgrade N1 bscr2 bscr2", "time eth1 1", "upgrade N2 eth1 eth1", "upgrade Nmin tssB tss",
+		"time tm 1", "dry toggle Npfx tm tm", "toggle Npfx tm tm", "time bscr0 1", "toggle Nupper bscr0 bscr0", "toggle Nchars tssA tss", "time eth0 1", "toggle Nmax eth0 eth0", "restart")
+	for _, c := range []cl{{"N0", "tm"}, {"N1", "bscr2"}, {"N2", "eth1"}, {"Nmin", "tssB"}, {"Npfx", "tm"}, {"Nupper", "bscr0"}, {"Nchars", "tssA"}, {"Nmax", "eth0"}, {"N63", "tmr0"}, {"Ndigits", "bsc0"}} {
+		who := "r0"
+		if strings.HasPrefix(c.cs, "tss") {
+			who = c.cs
+		}
+		h = append(h, "time "+c18TimeFor(c.cs)+" 1")
+		h = append(h, c18Use(c.name, c.cs, who)...)
+	}
+	out = append(out, h)
+	// C: the client whose name is a prefix of / differs by case from others is toggled (its store is cleared)
+	h = append([]string{}, pre...)
+	h = append(h, "time eth0 1", "dry toggle N0 eth0 eth0", "toggle N0 eth0 eth0", "restart")
+	for _, c := range []cl{{"N0", "eth0"}, {"Npfx", "bscr1"}, {"Nupper", "tmd"}} {
+		h = append(h, "time "+c18TimeFor(c.cs)+" 1")
+		h = append(h, c18Use(c.name, c.cs, "r0")...)
+	}
+	out = append(out, h)
+	return out
+}
+
+// (B) boundary values: revision numbers ≠ 0 for BSC / ETH heights, heights and epochs at the top of the uint64 range, a
+// Tendermint client at revision 2^64-1 / height 2^63; each created, toggled in, upgraded where a second point exists
+func c18Boundary() [][]string {
+	var out [][]string
+	rel := []string{"reset", "relayer r0 N0 N1 Nchars", "relayer tssA N0 N1 Nchars", "relayer tssB N0"}
+	for _, cs := range []string{"bscq0", "bscq1", "ethq0", "ethq1", "bscbig", "bscmaxe", "tmbig"} {
+		out = append(out, append(append([]string{}, rel...), append([]string{"time " + c18TimeFor(cs) + " 1", "create Nchars " + cs + " " + cs}, c18Use("Nchars", cs, "r0")...)...))
+		out = append(out, append(append([]string{}, rel...), append([]string{"time tm 1", "create N0 tssA tss", "time " + c18TimeFor(cs) + " 1", "toggle N0 " + cs + " " + cs}, c18Use("N0", cs, "r0")...)...))
+	}
+	// upgrades along the chain under a non-zero revision; a revision change by upgrade
+	out = append(out, append(append([]string{}, rel...), append([]string{"time bscq0 1", "create N0 bscq0 bscq0", "time bscq0 200", "update N0 r0 next", "update N0 r0 next", "time bscq2 1", "upgrade N0 bscq2 bscq2"}, c18Use("N0", "bscq2", "r0")...)...))
+	out = append(out, append(append([]string{}, rel...), append([]string{"time bscr0 1", "create N0 bscr0 bscr0", "time bscq1 1", "upgrade N0 bscq1 bscq1"}, c18Use("N0", "bscq1", "r0")...)...))
+	out = append(out, append(append([]string{}, rel...), append([]string{"time ethq0 1", "create N0 ethq0 ethq0", "time ethq0 200", "update N0 r0 next", "time ethq1 1", "upgrade N0 ethq1 ethq1"}, c18Use("N0", "ethq1", "r0")...)...))
+	out = append(out, append(append([]string{}, rel...), append([]string{"time eth0 1", "create N0 eth0 eth0", "time ethq1 1", "upgrade N0 ethq1 ethq1"}, c18Use("N0", "ethq1", "r0")...)...))
+	// mismatching revisions between client state and consensus state of the same header
+	out = append(out, append(append([]string{}, rel...), "time bscq0 1", "create N0 bscq0 bscr0", "status N0", "create N1 ethq0 eth0", "status N1", "restart"))
+	return out
+}
+
+// (D) two proposals about the same client decided in the same block, executed one after the other in both orders
+// (each passed ValidateBasic at its submission, before either ran); and two creates of the same name
+func c18InFlight() [][]string {
+	var out [][]string
+	rel := []string{"reset", "relayer r0 N0 N1", "relayer tssA N0 N1", "relayer tssB N0 N1"}
+	for _, a := range c18Types {
+		ca, ka := c18CSOf(a, false)
+		ca2, ka2 := c18CSOf(a, true)
+		for _, b := range c18Types {
+			if a == b {
+				continue
+			}
+			cb, kb := c18CSOf(b, false)
+			cb2, kb2 := c18CSOf(b, true)
+			who := map[bool]string{true: "tssA", false: "r0"}
+			pre := append(append([]string{}, rel...), "time "+c18TimeFor(ca)+" 1", "create N0 "+ca+" "+ka, "time "+c18TimeFor(cb)+" 1")
+			// toggle to b, then the upgrade (written for b) of the same block
+			h := append(append([]string{}, pre...), "toggle N0 "+cb+" "+kb, "upgrade N0 "+cb2+" "+kb2, "status N0")
+			out = append(out, append(h, c18Use("N0", cb2, who[b == "tss"])...))
+			// upgrade of a, then the toggle to b
+			h = append(append([]string{}, pre...), "upgrade N0 "+ca2+" "+ka2, "toggle N0 "+cb+" "+kb, "status N0")
+			out = append(out, append(h, c18Use("N0", cb, who[b == "tss"])...))
+			// toggle to b first: the upgrade written for a must now fail and change nothing
+			h = append(append([]string{}, pre...), "toggle N0 "+cb+" "+kb, "upgrade N0 "+ca2+" "+ka2, "status N0")
+			out = append(out, append(h, c18Use("N0", cb, who[b == "tss"])...))
+			// two creates of one name, both orders: the second fails and changes nothing
+			out = append(out, append(append([]string{}, rel...), "time "+c18TimeFor(ca)+" 1", "create N1 "+ca+" "+ka, "create N1 "+cb+" "+kb, "status N1"))
+		}
+	}
+	return out
+}
+
 func c18Matrix(pow bool) [][]string {
 	var out [][]string
 	rel := []string{"reset", "relayer r0 N0 N1", "relayer tssA N0", "relayer tssB N0"}
@@ -1731,7 +2046,7 @@ func c18Matrix(pow bool) [][]string {
 				if a == "tm" { // a history before the change: the old client has several consensus states
 					h = append(h, "update N0 r0 next", "update N0 r0 next")
 				}
-				h = append(h, "time "+c18TimeFor(cb)+" 1", kind+" N0 "+cb+" "+kb)
+				h = append(h, "time "+c18TimeFor(cb)+" 1", "dry "+kind+" N0 "+cb+" "+kb, "status N0", kind+" N0 "+cb+" "+kb)
 				h = append(h, c18Use("N0", cb, "r0")...)
 				out = append(out, h)
 			}
@@ -1756,8 +2071,8 @@ func c18Matrix(pow bool) [][]string {
 
 func (w *c18World) randomHistory(r *Rec) []string {
 	rng := r.Rng
-	names := []string{"N0", "N0", "N0", "N1", "N2", "Nmin", "Nmax"}
-	bad := []string{"Nshort", "Nslash", "Nlong", "Nspace", "Nblank", "Nself", "Nself"}
+	names := []string{"N0", "N0", "N0", "N1", "N2", "Nmin", "Nmax", "Nupper", "Npfx", "Nchars"}
+	bad := []string{"Nshort", "Nslash", "Nlong", "Nspace", "Nblank", "Nself", "Nself", "Nuni", "Ntab"}
 	goodCS := []string{"tm", "tmd", "tmr0", "tmr1", "bsc0", "bsc1", "bscr0", "bscr1", "bscr2", "eth0", "eth1", "tssA", "tssB"}
 	badCS := []string{"tm!inv", "bsc!epoch", "bsc!seal", "bsc!inv", "bsc!h0", "bsc!noval", "bscr!stale", "tm!h0", "tm!tl0", "tm!specs", "bscr!epoch0", "bscr!chainbig", "bscr!mix", "eth!gascap", "eth!diff0", "tss!empty", "unk", "eth!inv", "eth!h0", "tss!inv", "nil"}
 	allKS := []string{"tm", "bsc0", "bsc1", "bscr0", "bscr1", "eth0", "eth1", "tss", "nil"}
@@ -1787,7 +2102,7 @@ func (w *c18World) randomHistory(r *Rec) []string {
 	whos := []string{"r0", "r0", "r0", "r1", "tssA", "tssB", "bad"}
 	h := []string{"reset"}
 	if rng.Intn(8) > 0 {
-		h = append(h, "relayer r0 N0 N1 N2 Nmin Nmax", "relayer tssA N0 N1", "relayer tssB N0")
+		h = append(h, "relayer r0 N0 N1 N2 Nmin Nmax Nupper Npfx Nchars", "relayer tssA N0 N1 Nupper", "relayer tssB N0 Npfx")
 	}
 	installed := map[string]string{}
 	steps := 4 + rng.Intn(12)
@@ -1804,7 +2119,9 @@ func (w *c18World) randomHistory(r *Rec) []string {
 					ins = append(ins, nm)
 				}
 			}
-			name = ins[rng.Intn(len(ins))]
+			if len(ins) > 0 {
+				name = ins[rng.Intn(len(ins))]
+			}
 		}
 		switch {
 		case x < 8: // lifecycle proposal
@@ -1895,6 +2212,23 @@ func (w *c18World) randomHistory(r *Rec) []string {
 			h = append(h, fmt.Sprintf("time cons:%s %d", name, tp+int64(rng.Intn(3))-1), "status "+name, "update "+name+" r0 next",
 				fmt.Sprintf("time cons:%s %d", name, 20+rng.Intn(30)))
 		default:
+			switch rng.Intn(5) {
+			case 0:
+				h = append(h, "restart")
+				continue
+			case 1: // the last lifecycle / update op again, on a dropped context
+				for j := len(h) - 1; j > 0; j-- {
+					f0 := strings.Fields(h[j])[0]
+					if f0 == "create" || f0 == "upgrade" || f0 == "toggle" || f0 == "update" {
+						h = append(h, "dry "+h[j])
+						break
+					}
+				}
+				continue
+			case 2:
+				h = append(h, fmt.Sprintf("timens %d", []int{-1, 1, 2, -2}[rng.Intn(4)]))
+				continue
+			}
 			if rng.Intn(2) == 0 {
 				h = append(h, fmt.Sprintf("time now %d", []int{1, 19, 20, 21, 100}[rng.Intn(5)]))
 			} else {
@@ -1930,6 +2264,15 @@ func TestC18(t *testing.T) {
 			run(h)
 		}
 		for _, h := range c18InvalidMatrix() {
+			run(h)
+		}
+		for _, h := range c18SideBySide() {
+			run(h)
+		}
+		for _, h := range c18InFlight() {
+			run(h)
+		}
+		for _, h := range c18Boundary() {
 			run(h)
 		}
 	}
